@@ -375,7 +375,7 @@ def run(scn: dict) -> dict:
     max_sleep = max([f["sleep"] for f in spec["funcs"]] + [0])
 
     async def driver(w: World):
-        await w.settle()
+        await w.started()
         w.natives["start_event_idx"] = len(w.bus_events)
         burst = 0
         for op in scn["ops"]:
